@@ -56,7 +56,7 @@ func runH(c caseH) error {
 	const key = "hkey"
 	gen := 0
 	secret := func(n int) string { return fmt.Sprintf("secret-generation-%d", n) }
-	if err := cache.CreateAccount(auth.Account{Access: key, Secret: secret(gen), Role: auth.RoleUser}); err != nil {
+	if err := cache.CreateAccount(auth.Account{Access: key, Secret: secret(gen), Role: auth.RoleUserPlus, UserID: 1234, GroupID: 5678}); err != nil {
 		return fmt.Errorf("SETUP: create: %v", err)
 	}
 	exists := true
@@ -104,7 +104,7 @@ func runH(c caseH) error {
 				done.Wait()
 				continue
 			}
-			cerr = cache.CreateAccount(auth.Account{Access: key, Secret: secret(gen + 1), Role: auth.RoleUser})
+			cerr = cache.CreateAccount(auth.Account{Access: key, Secret: secret(gen + 1), Role: auth.RoleUserPlus, UserID: 1234, GroupID: 5678})
 			if cerr == nil {
 				gen++
 				exists = true
@@ -126,12 +126,14 @@ func runH(c caseH) error {
 				return fmt.Errorf("%s: acknowledged; lookup number %d afterwards (all parallel lookups have ended) fails: %v", where, probe+1, err)
 			case exists && a.Secret != secret(gen):
 				return fmt.Errorf("%s: acknowledged; lookup number %d afterwards (all parallel lookups have ended) returns secret %q, the account's secret is %q", where, probe+1, a.Secret, secret(gen))
+			case exists && (a.Role != auth.RoleUserPlus || a.UserID != 1234 || a.GroupID != 5678):
+				return fmt.Errorf("%s: acknowledged; lookup number %d afterwards returns role %q, user id %d, group id %d: the account was created as userplus with user id 1234 and group id 5678", where, probe+1, a.Role, a.UserID, a.GroupID)
 			case !exists && err == nil:
 				return fmt.Errorf("%s: acknowledged; lookup number %d afterwards (all parallel lookups have ended) still finds the deleted account (secret %q)", where, probe+1, a.Secret)
 			}
 		}
 		// the store agrees
-		if a, err := store.GetUserAccount(key); exists && (err != nil || a.Secret != secret(gen)) || !exists && err == nil {
+		if a, err := store.GetUserAccount(key); exists && (err != nil || a.Secret != secret(gen) || a.Role != auth.RoleUserPlus || a.UserID != 1234 || a.GroupID != 5678) || !exists && err == nil {
 			return fmt.Errorf("%s: the account store itself holds %+v / %v", where, a, err)
 		}
 	}
